@@ -141,4 +141,35 @@ GarbageNeverInvoked == \A q \in Calls : bad[q] => invoked[q] = 0
 CreditBound == credit <= Credit /\ credit >= 0
 Invariants == GarbageNeverInvoked /\ AtMostOnce /\ OnlyCompleteRequests /\ OkMeansHandled /\ NoOrphanHandler /\ NoLeak
               /\ NoStuckCaller /\ CreditBound
+-----------------------------------------------------------------------------
+(* Liveness (C02 "yields its own response or an error", C12 "dropped       *)
+(* promptly ... never exhausts stream capacity", C06 "keep succeeding").   *)
+(* Whether a call is issued, abandoned, the connection lost or what a       *)
+(* hostile stream does is up to the environment; every step of an honest    *)
+(* caller, of the callee and of the transport is weakly fair.               *)
+Honest == Calls \ Hostile
+Fairness ==
+  /\ \A q \in Honest : WF_vars(OpenBi(q)) /\ WF_vars(WritePart(q)) /\ WF_vars(Finish(q))
+  /\ \A q \in Calls :
+        /\ WF_vars(Accept(q)) /\ WF_vars(Invoke(q)) /\ WF_vars(Refuse(q)) /\ WF_vars(StopSeen(q))
+        /\ WF_vars(Respond(q)) /\ WF_vars(CallerGets(q)) /\ WF_vars(CallerFails(q))
+        /\ WF_vars(ReturnCredit(q))
+FairSpec == Spec /\ Fairness
+
+Over(q) == cs[q] \in {"ok", "err", "abandoned"}
+HeldByHang == \E h \in Hangs : ss[h] = "handling" /\ cs[h] = "finished"
+StalledHostile == \E h \in Hostile : cs[h] \in {"open", "sent"}
+(* a call that got its stream ends - with its response or an error - unless its own handler is *)
+(* one of those that never answer (and nobody abandons it)                                      *)
+OpenCallEnds == \A q \in Honest : (cs[q] = "open") ~> (Over(q) \/ (q \in Hangs /\ ss[q] = "handling"))
+(* a call waiting for a stream gets one unless streams are held by hanging handlers or by      *)
+(* hostile streams that never finish                                                           *)
+WaitingCallEnds == \A q \in Honest : (cs[q] = "waiting") ~> (Over(q) \/ HeldByHang \/ StalledHostile
+                                                               \/ (q \in Hangs /\ ss[q] = "handling"))
+(* the handler of an abandoned call does not keep running *)
+AbandonedHandlerDropped == \A q \in Calls : (cs[q] = "abandoned" /\ ss[q] = "handling") ~> (ss[q] # "handling")
+(* the stream of a call that is over and was seen by the callee goes back to the caller's budget *)
+CreditComesBack == \A q \in Calls :
+   ((cs[q] \in {"ok", "err"} /\ ss[q] \in {"responded", "refused", "cancelled"})
+      \/ (cs[q] = "abandoned" /\ (reset[q] \/ stop[q]))) ~> (q \in returned \/ lost)
 =============================================================================
